@@ -366,6 +366,20 @@ func Family(prop, tier string) ([]Scenario, error) {
 		for _, s := range Core(2, n12, both, outs, 1) {
 			out = append(out, withEmitter(s, 1))
 		}
+		// the emitter (user code running on the scheduler loop's goroutine) kills that goroutine
+		for _, n := range n12 {
+			for _, coe := range both {
+				for _, g := range [][][]int{{nil}, {nil, nil}, {nil, {0}}} {
+					v := make([]string, len(g))
+					for i := range v {
+						v[i] = OK
+					}
+					e := withEmitter(mk(n, coe, g, v), 1)
+					e.EmitGoexit = true
+					out = append(out, e)
+				}
+			}
+		}
 		// jobs carry a context that gets cancelled, Wait is given a live one
 		for _, n := range n12 {
 			for _, coe := range both {
